@@ -287,7 +287,8 @@ def gen_fx(rng, t, sr, nested_ok=True):
         return fx, dict(fx, mix=0.0), "reverb fb=%.3g damp=%.3g width=%.3g mix=%.3g" % (fx["fb"], fx["damp"], fx["width"], fx["mix"])
     if t == "comp":
         th = rng.choice([-60.0, -40.0, -24.0, -12.0, -6.0, 0.0, 6.0])
-        ratio = rng.choice([0.5, 1.0, 2.0, 4.0, 20.0, 1e6] + ([0.25] if th >= -24 else []))
+        # 1e38: about the largest f32; 1e300: the driver's code for an infinite ratio (a limiter)
+        ratio = rng.choice([0.5, 1.0, 2.0, 4.0, 20.0, 1e6, 1e38, 1e300] + ([0.25] if th >= -24 else []))
         fx = {"t": "comp", "th": th, "ratio": ratio, "att_ns": rng.choice([0, 100000, 10000000, 1000000000]),
               "rel_ns": rng.choice([0, 1000000, 100000000, 5000000000]), "makeup": rng.choice([-12.0, 0.0, 6.0, 24.0]), "mix": mix()}
         return fx, dict(fx, mix=0.0), "comp th=%g ratio=%g att=%dns rel=%dns makeup=%g mix=%.3g" % (
@@ -359,6 +360,10 @@ def gen_laws(rng, tier):
         ("reverb", {"fb": 1.0, "damp": 0.0, "width": 1.0, "mix": 1.0}), ("reverb", {"fb": 1.0, "damp": 1.0, "width": 0.0, "mix": 0.5}),
         ("delay", {"fb": 0.0, "mix": 1.0, "nested": []}), ("comp", {"th": -24.0, "ratio": 0.25, "att_ns": 0, "rel_ns": 0, "makeup": 24.0, "mix": 1.0}),
         ("dist", {"kind": 1, "drive": 48.0, "mix": 1.0}), ("vol", {"db": 12.0}), ("pan", {"p": 1.0}),
+        # a limiter: infinite ratio (1e300 is the driver's code for it), wet and half wet; the same with the largest f32
+        ("comp", {"th": -24.0, "ratio": 1e300, "att_ns": 0, "rel_ns": 1000000, "makeup": 0.0, "mix": 1.0}),
+        ("comp", {"th": -12.0, "ratio": 1e300, "att_ns": 100000, "rel_ns": 0, "makeup": 6.0, "mix": 0.5}),
+        ("comp", {"th": -24.0, "ratio": 1e38, "att_ns": 0, "rel_ns": 0, "makeup": 0.0, "mix": 1.0}),
     ]
     for t, over in edge:
         def fo(fx, dry, desc, sr, over=over):
